@@ -61,7 +61,20 @@ static Plan gen_c05(uint64_t seed, const std::string &tier) {
     while (!fmt.empty() && (fmt[0] == ' ' || fmt[0] == '"' || fmt[0] == '\'' )) fmt.erase(0, 1);
     CfgSpec s; s.has_format = true; s.format = fmt;
     s.has_dsmax = true; s.dsmax = std::to_string(pick_limit(r, biggest));
-    s.has_logmax = true; s.logmax = std::to_string(pick_limit(r, total));
+    // the message limit is aimed at the exact length of the expansion after each piece of the format (+-2), computed
+    // with the reference expansion: boundaries in front of every "%{" and behind every "}"
+    {
+        std::vector<long> marks; ExecOp probe = e; CallCtx ctx; ctx.w = &w; ctx.op = &probe;
+        for (size_t pos = 0; pos <= fmt.size(); pos++) {
+            bool cut = pos == fmt.size() || fmt.compare(pos, 2, "%{") == 0 || (pos > 0 && fmt[pos - 1] == '}');
+            if (!cut) continue;
+            Expansion x = model_expand(fmt.substr(0, pos), 1048575, 1 << 30, ctx);
+            marks.push_back((long)x.full.size());
+        }
+        long lm = pick_limit(r, total);
+        if (!marks.empty() && r.chance(3, 4)) { lm = marks[r.below(marks.size())] + r.range(-2, 2); if (lm < 255) lm = 255; if (lm > 1048575) lm = 1048575; }
+        s.has_logmax = true; s.logmax = std::to_string(lm);
+    }
     int oc = (int)r.below(10);
     s.has_output = true;
     if (oc == 0) { s.output = "devlog"; s.has_ident = true; size_t n = r.chance(1, 2) ? (size_t)r.range(250, 260) : (size_t)r.range(1, 40); s.ident = r.chance(1, 2) ? std::string(n, 'I') : "%{snoopy_literal:" + std::string(n, 'i') + "}-%{uid}"; }
@@ -422,13 +435,14 @@ static Verdict oracle_c12(const Plan &p, const RunResult &r) {
 static void describe_c12(const Plan &p, const RunResult &r, J &line) {
     (void)r; const World &w = p.world;
     std::string sig = std::string(w.uid == w.euid ? "u=" : "u!") + (w.gid == w.egid ? "g=" : "g!") + (w.uid == w.gid ? "ug=" : "ug!") + "t" + std::to_string(w.tty_state) + (w.pw(w.uid) ? "N" : "n") + (w.pw(w.euid) ? "N" : "n") + (w.gr(w.gid) ? "N" : "n") + (w.gr(w.egid) ? "N" : "n") +
-                      (w.login_errno ? "l!" : "l=") + (w.environ_null ? "E0" : w.env.empty() ? "Ee" : "En") + (w.cwd_errno ? "c!" : "c=") + "d" + std::to_string(w.procs.size());
+                      (w.login_errno ? "l!" : "l=") + (w.at_secure ? "S" : "s") + (w.environ_null ? "E0" : w.env.empty() ? "Ee" : "En") + (w.cwd_errno ? "c!" : "c=") + "d" + std::to_string(w.procs.size());
     line.set("sig", sig); line.set("nontrivial", true);
     if (w.uid != w.euid && w.gid != w.egid && w.uid != w.gid && w.euid != w.egid) line.set("p_all_ids_distinct", true);
     if (!w.pw(w.uid) || !w.gr(w.gid)) line.set("p_id_without_name", true);
     if (w.tty_state == 0) line.set("p_no_tty", true);
     if (w.tty_state == 1) line.set("p_ebadf", true);
     if (w.cwd_errno) line.set("p_deleted_cwd", true);
+    if (w.at_secure) line.set("p_secure_exec_mode", true);
     for (auto &e : w.env) if (e.compare(0, 3, "TZ=") == 0 && e != "TZ=UTC") line.set("p_tz_non_utc", true);
 }
 static Reg reg_c12({"C12", gen_c12, oracle_c12, nullptr, describe_c12});
